@@ -11,7 +11,7 @@
      value 4 + |bytes of the remaining arguments| is emitted directly.
      [foam_params_ok] demands that 'X' occurs only as first letter of Prog.
    * the argument loop of the decoder refuses an n-ary count larger than
-     [lim] (total input length + 3) up front: with formats 0/1 every argument
+     [lim] (total input length + IMMED_FORMS) up front: with formats 0/1 every argument
      takes at least one byte, with an immediate format the count is <= 3, so C
      would run off the buffer (assert in bufGetn/bufGet1) -- also [None].
    * foamTagFormat reads .data of EVERY argument of Rec/DEnv/DFluid, also of
@@ -176,8 +176,8 @@ Definition dec_field (c : letter) (fm st : Z) (bs : bytes) : option (arg * bytes
           | Some (neg, r) =>
             match get_int fm r with
             | Some (slen, r1) =>
-              if (slen <=? 0) || (Z.of_nat (length r1) <? 2 * slen) then None
-              else match get_hints (Z.to_nat slen) r1 with
+              if slen <=? 0 then None
+              else match get_hints r1 slen with
                    | Some (ds, r2) =>
                      Some (BIntA (if neg =? 0 then undigits16 ds else - undigits16 ds), r2, st)
                    | None => None end
@@ -242,7 +242,7 @@ Section DecNode.
 End DecNode.
 
 Definition dec (st : Z) (bs : bytes) : option (node * bytes * Z) :=
-  dec_node (Z.of_nat (length bs) + 3) (S (length bs)) st bs.
+  dec_node (Z.of_nat (length bs) + fp_immed_forms P) (S (length bs)) st bs.
 
 (* ---- well-formedness = every value fits the representation foamTagFormat picks *)
 Definition inrange (z lo hi : Z) : bool := (lo <=? z) && (z <? hi).
@@ -287,7 +287,7 @@ Section WfArgs.
               | Sub m => W st m && wf_args (S si) r (snd (E st m))
               | _ => false
               end
-      | LX => wf_args (S si) r st
+      | LX => match a with Int _ => wf_args (S si) r st | _ => false end   (* .data, 0 in trees *)
       | Lf => wf_field Lf fm st a && match r with [] => true | _ => false end
       | Ld => wf_field Ld fm st a && match r with [] => true | _ => false end
       | c => wf_field c fm st a && wf_args (S si) r (snd (enc_field c fm st a))
@@ -347,6 +347,9 @@ Definition foam_params_ok : bool :=
   (fp_max_byte P =? 255) &&
   (fp_origin P <=? fp_index_start P) &&
   ((fp_bval_bytes P =? 1) || (fp_bval_bytes P =? 2)) &&
-  (1 <=? fp_u16_per_digit P).
+  (1 <=? fp_u16_per_digit P) &&
+  (* what foamSIntReduce / eval_sint and the X handling rely on *)
+  negb (t_SInt P =? t_BCall P) && negb (bv_SIntShiftUp P =? bv_SIntOr P) &&
+  negb (t_SInt P =? t_Prog P) && negb (t_BCall P =? t_Prog P).
 
 End WithParams.
